@@ -410,6 +410,107 @@ def _derive_slices(emit):
     emit('triu_k', [], lambda: triu(1))
 
 
+def _list_branch():
+    fn = _py_func('calc_rdm_unbalanced')
+    tops = [s for s in fn.body if isinstance(s, ast.If) and 'isinstance(dataset' in ast.unparse(s.test)]
+    if len(tops) != 1 or not tops[0].body:
+        raise Underivable('the `if isinstance(dataset, Iterable):` branch was not found')
+    loops = [s for s in tops[0].body if isinstance(s, ast.For)]
+    if len(loops) != 1 or 'dataset' not in ast.unparse(loops[0].iter):
+        raise Underivable('expected exactly one `for ... in ...dataset...` loop in the list branch')
+    return fn, tops[0].body, loops[0]
+
+
+def _derive_list(emit):
+    """round 4: the list branch of calc_rdm_unbalanced is a *stateless* loop — every dataset is
+    handed to calc_rdm_unbalanced itself with the caller's arguments passed through, and nothing
+    computed for one dataset is read while the next one is processed.
+    `list_carried` = number of loop-carried names (stored in the loop body, or before the loop and
+    again in the body, and read in the body), the result accumulator aside;
+    `list_passthrough` = 1 iff every collected element is `calc_rdm_unbalanced(dat, <param>=<param>, ...)`
+    (noise: `noise` or `noise[<loop index>]`)."""
+    def names(nodes, ctx):
+        return {n.id for x in nodes for n in ast.walk(x) if isinstance(n, ast.Name) and isinstance(n.ctx, ctx)}
+
+    def accumulators(block, loop):
+        acc = set()
+        for s in block:
+            if isinstance(s, ast.Assign) and len(s.targets) == 1 and isinstance(s.targets[0], ast.Name) \
+                    and isinstance(s.value, ast.List) and not s.value.elts and s.lineno < loop.lineno:
+                acc.add(s.targets[0].id)
+        return acc
+
+    def carried():
+        fn, block, loop = _list_branch()
+        acc = accumulators(block, loop)
+        targets = names([loop.target], ast.Store)
+        before = [s for s in block if s.lineno < loop.lineno]
+        stored_in = names(loop.body, ast.Store) - targets
+        stored_before = names(before, ast.Store) - acc
+        loaded_in = names(loop.body, ast.Load)
+        # an accumulator may only be used as `<acc>.append(...)`
+        plain = {n.id for x in loop.body for n in ast.walk(x)
+                 if isinstance(n, ast.Name) and n.id in acc and isinstance(n.ctx, ast.Load)}
+        n_acc_loads = sum(1 for x in loop.body for n in ast.walk(x)
+                          if isinstance(n, ast.Name) and n.id in acc and isinstance(n.ctx, ast.Load))
+        n_appends = sum(1 for x in loop.body for n in ast.walk(x)
+                        if isinstance(n, ast.Call) and isinstance(n.func, ast.Attribute)
+                        and n.func.attr == 'append' and isinstance(n.func.value, ast.Name)
+                        and n.func.value.id in acc)
+        car = set()
+        for name in stored_in:
+            if name in loaded_in and name in stored_before:
+                car.add(name)                       # initialised before the loop, updated and read in it
+        for name in stored_in & loaded_in:
+            # read before (or in the same statement as) its first store inside one iteration
+            first_store = min(n.lineno for x in loop.body for n in ast.walk(x)
+                              if isinstance(n, ast.Name) and n.id == name and isinstance(n.ctx, ast.Store))
+            first_load = min(n.lineno for x in loop.body for n in ast.walk(x)
+                             if isinstance(n, ast.Name) and n.id == name and isinstance(n.ctx, ast.Load))
+            if first_load <= first_store:
+                car.add(name)
+        if n_acc_loads != n_appends:
+            car |= {a for a in acc if a in plain}   # the accumulator is read, not only appended to
+        params = {a.arg for a in fn.args.args + fn.args.kwonlyargs}
+        for name in stored_in & params:
+            if name in loaded_in:
+                car.add(name)                       # an argument of the call is overwritten per dataset
+        return str(len(car))
+
+    def passthrough():
+        fn, block, loop = _list_branch()
+        acc = accumulators(block, loop)
+        params = {a.arg for a in fn.args.args + fn.args.kwonlyargs}
+        tg = [n.id for n in ast.walk(loop.target) if isinstance(n, ast.Name)]
+        calls = [n for x in loop.body for n in ast.walk(x)
+                 if isinstance(n, ast.Call) and isinstance(n.func, ast.Attribute) and n.func.attr == 'append'
+                 and isinstance(n.func.value, ast.Name) and n.func.value.id in acc]
+        if not calls:
+            raise Underivable('nothing is appended to the result list in the loop')
+        need = {'method', 'descriptor', 'cv_descriptor', 'prior_lambda', 'prior_weight', 'weighting'}
+        for c in calls:
+            if len(c.args) != 1 or c.keywords:
+                raise Underivable('unexpected append call')
+            e = c.args[0]
+            if not (isinstance(e, ast.Call) and ast.unparse(e.func) == fn.name):
+                raise Underivable(f'`{ast.unparse(e)[:50]}` is not a call of {fn.name} itself')
+            if len(e.args) != 1 or not isinstance(e.args[0], ast.Name) or e.args[0].id not in tg:
+                raise Underivable('the dataset of the iteration is not the (only) positional argument')
+            kws = {k.arg: k.value for k in e.keywords}
+            if None in kws or not need <= set(kws) or not set(kws) <= params:
+                raise Underivable(f'keywords {sorted(map(str, kws))} do not pass {sorted(need)} on')
+            for k, v in kws.items():
+                txt = ast.unparse(v)
+                ok = txt == k or (k == 'noise' and isinstance(v, ast.Subscript)
+                                  and ast.unparse(v.value) == 'noise' and ast.unparse(v.slice) in tg)
+                if not ok:
+                    raise Underivable(f'`{k}={txt}` is not the caller\'s argument passed through')
+        return '1'
+
+    emit('list_carried', [], carried)
+    emit('list_passthrough', [], passthrough)
+
+
 def _derive():
     out = ['# DERIVED by harness/leaves/C15.py from the source tree under check - do not edit', '']
     specs = []
@@ -427,6 +528,7 @@ def _derive():
     _derive_pyx(emit)
     _derive_py(emit)
     _derive_slices(emit)
+    _derive_list(emit)
     text = '\n'.join(out)
     if not (os.path.exists(DERIVED) and open(DERIVED).read() == text):
         with open(DERIVED + '.tmp', 'w') as f:
